@@ -89,13 +89,19 @@ impl SearchCfg {
 }
 
 pub fn run_search(game: &Game, table: &mut TranspositionTable, cfg: &SearchCfg) -> SearchRun {
+    run_search_flag(game, table, cfg, true)
+}
+
+/// `initial_flag = false`: the stop request is already in when the search function is entered (`go` overtaken by
+/// `stop`, or a time budget of zero: the timer fired before the search thread got going)
+pub fn run_search_flag(game: &Game, table: &mut TranspositionTable, cfg: &SearchCfg, initial_flag: bool) -> SearchRun {
     let mut ctx = SeqCtx::new();
     ctx.stop_at = cfg.stop_at;
     ctx.depth_limit = cfg.depth_monitor;
     ctx.watchdog = cfg.watchdog;
     ctx.tableless = cfg.tableless;
     let before = game.verif_dump();
-    let flag = AtomicBool::new(true);
+    let flag = AtomicBool::new(initial_flag);
     let (r, ctx) = in_seq(ctx, || guarded(|| get_best_move_until_stop(game, table, &flag, cfg.max_depth)));
     let after = game.verif_dump();
     SearchRun {
